@@ -41,7 +41,13 @@ def via(x, how):
     return x
 
 
-def tzinfo_of(off, kind, zone=None):
+def tzinfo_of(off, kind, zone=None, fields=None, is_dst=False):
+    if kind == "pytzloc":
+        # the tzinfo instance pytz's localize() attaches for this wall time (one instance per offset of the zone)
+        return pytz.timezone(zone).localize(dt.datetime(*fields), is_dst=is_dst).tzinfo
+    if kind == "pytzattach":
+        # a pytz zone attached with tzinfo=: carries the zone's first (local mean time) offset
+        return pytz.timezone(zone)
     if kind == "zone":
         # one tzinfo object per zone and process (ZoneInfo caches by key): its offset varies with the datetime
         return zoneinfo.ZoneInfo(zone)
@@ -60,7 +66,7 @@ def build_input(spec, p, c):
     if "date" in spec:
         return dt.date(*spec["date"])
     y, m, d, hh, mm, ss, us = spec["dt"]
-    tz = tzinfo_of(spec.get("off"), spec.get("tz", "std"), spec.get("zone"))
+    tz = tzinfo_of(spec.get("off"), spec.get("tz", "std"), spec.get("zone"), spec["dt"], spec.get("is_dst", False))
     fold = spec.get("fold", 0)
     if spec.get("cls") == "stix":
         return STIXdatetime(y, m, d, hh, mm, ss, us, tz, precision=p, precision_constraint=c, fold=fold)
